@@ -401,8 +401,8 @@ class FX:
         if os.environ.get("LXS_NO_RENAME"):
             return
         from . import names
-        rec = names.table().get(self.rel, {}).get(self.scope)
-        if rec is None:
+        rec = names.recorded(self.rel, self.scope) if self.rel in names.table() else None
+        if not rec:
             return
         subst = {}
         for nm, d in list(self.decl.items()):
@@ -1729,6 +1729,23 @@ class FX:
                     self._bind_target_const(e.generators[0].target, val, env2)
                     out += self._stmts(e.elt, env2)
                 return out
+            g0 = e.generators[0]
+            pl = self._value(g0.iter, env) if isinstance(g0.iter, (ast.Name, ast.Attribute)) else None
+            if isinstance(pl, PyList) and pl.items and isinstance(g0.target, ast.Name) and \
+                    all(isinstance(v, (Node, PyList)) for _, _, v in pl.items):
+                # a list of statements built earlier (possibly in a loop), wrapped element by element
+                out = []
+                cur_loops, cur_pg = list(self.loops), list(self.pyguards)
+                for lps, pg, v in pl.items:
+                    env2[g0.target.id] = v
+                    ns = self._stmts(e.elt, env2)
+                    for gd in reversed([x for x in pg if x not in cur_pg]):
+                        ns = [PyG(gd[0], gd[1], ns, None)]
+                    extra_lp = [l for l in lps if l not in cur_loops]
+                    if extra_lp:
+                        ns = [LoopN(extra_lp, ns, None)]
+                    out.extend(ns)
+                return out
         for g in e.generators:
             self._bind_loop(g.target, g.iter, env2)
             loops.append((norm(g.target), self.ctext(g.iter, env2)))
@@ -1837,6 +1854,8 @@ class FX:
             return Opq("Case with <2 args", e)
         sel = self.canon(e.args[0], env)
         cv = self._value(e.args[1], env)
+        if isinstance(cv, ast.Name) and isinstance(self.localdefs.get(cv.id), ast.DictComp):
+            cv = self.localdefs[cv.id]          # cases = {i: ... for ...}; Case(sel, cases)
         arms = []
         if isinstance(cv, PyDict):
             for k, v, lp, pg in cv.items:
